@@ -78,6 +78,13 @@ def lean_ident(key: str) -> str:
 
 
 class DataClass:
+    @classmethod
+    def manual(cls, name: str, fields: list) -> "DataClass":
+        """an object whose translated fields are declared by the caller (e.g. `self` of a class with __slots__)"""
+        d = cls.__new__(cls)
+        d.name, d.fields = name, list(fields)
+        return d
+
     def __init__(self, node: ast.ClassDef):
         self.name = node.name
         self.fields: list[tuple[str, str, str]] = []     # (name, type, default lean)
